@@ -28,6 +28,8 @@ pub enum KeyDist {
     Short,
     Boundary,
     Mixed,
+    /// keys whose records need large slots (>= 1024 bytes), few distinct lengths
+    Long,
 }
 
 pub struct Gen {
@@ -105,6 +107,7 @@ impl Gen {
         let r = &mut self.rng;
         match d {
             KeyDist::Short => r.range(0, 12) as usize,
+            KeyDist::Long => *r.pick(&[900usize, 1010, 1020, 1100, 1500, 2000, 3000, 5000]) + r.below(3) as usize,
             KeyDist::Boundary => {
                 // exact-fit lengths: 1 (size) + 1 (len) + klen + 1..3 + 1..3 on a class edge
                 let c = *r.pick(&SMALL_CLASSES[..9]) as i64;
